@@ -53,7 +53,7 @@ def run(ctx):
         for _ in range(6000 if ctx.thorough else 700):
             hists.append(sapi.Hist(rng).build(rng.choice([5, 10, 20, 40, 60])))
         sapi.run_histories(ctx, bdir, ctx.alg, hists, "C14", "random+exhaustive")
-        ctx.cov["exhaustive"] = {"length": 3 if ctx.thorough else 2, "alphabet": na, "histories": len(ex)}
+        ctx.cov["exhaustive_short_histories"] = {"length": 3 if ctx.thorough else 2, "alphabet": na, "histories": len(ex)}
         ctx.sample({"history": hists[-1][:10]})
         ctx.sample({"history": ex[17]})
     ctx.assumptions += ["user callbacks/data are opaque ids; nlopt_munge_data and the f77 API are not modelled",
